@@ -335,7 +335,13 @@ class Exec(HeapMixin, SpecEvalMixin, ExprMixin, StmtMixin, CallMixin):
                 raise Unsupported(f"outcome {o.kind} at function exit")
 
     def check_result_kind(self, st, v: Value, kind: Kind) -> Value:
-        return self.coerce(st, v, kind)
+        v = self.coerce(st, v, kind)
+        if isinstance(kind, KOpt) and not isinstance(kind.inner, KNone):
+            if v is VNone:
+                v = VOpt(TRUE, self.fresh_value(st, kind.inner, "none_result"))
+            elif not isinstance(v, VOpt):
+                v = VOpt(FALSE, v)
+        return v
 
     # ---- frame --------------------------------------------------------------------------------------------
     def frame_obligations(self, fin: State, entry: State, c: Contract, params):
